@@ -28,7 +28,14 @@ def build(P):
         if t == "RecB": return ["OUTPUT %s.g" % ref]
         return ["OUTPUT %s" % ref]
 
+    ARRAY_ASSIGN = []
+
     def c05_cases(tier, seed):
+        # whole-array assignment is a store channel too: the element type must be identical (C06's matrix, built on demand)
+        if not ARRAY_ASSIGN:
+            for _ in c06_cases("quick", seed):
+                if ARRAY_ASSIGN: break
+        yield ("array-assign-matrix", [Case(id="C05-aa-%d" % i, prog=(sp + "\n").encode(), meta=dict(units=["aa/%d" % i])) for i, sp in enumerate(ARRAY_ASSIGN)])
         progs = []
         targets = [t for t in TY if t not in ("STRING1", "STRING0")]
         for tt in targets:
@@ -195,6 +202,7 @@ def build(P):
                     am.append("\n".join(L))
         for dst, src in [("1:3", "0:2"), ("1:3", "1:4"), ("1:2, 1:3", "1:3, 1:2"), ("1:6", "1:2, 1:3"), ("1:2, 1:3", "1:2, 1:4"), ("0:1, 1:3", "1:2, 1:3")]:
             am.append("\n".join(["DECLARE a : ARRAY[%s] OF INTEGER" % src, "DECLARE b : ARRAY[%s] OF INTEGER" % dst, "OUTPUT \"before\"", "b <- a", "OUTPUT \"not reached\""]))
+        ARRAY_ASSIGN[:] = am
         yield ("array-assign-matrix", [Case(id="C06-aa-%d" % i, prog=(sp + "\n").encode(), meta=dict(units=["aa/%d" % i])) for i, sp in enumerate(am)])
         shapes = [
             "DECLARE a : ARRAY[1:3] OF INTEGER\nOUTPUT a[1.0]", "DECLARE a : ARRAY[1:3] OF INTEGER\nOUTPUT a[\"1\"]", "DECLARE a : ARRAY[1:3] OF INTEGER\nOUTPUT a[1, 1]",
@@ -219,7 +227,12 @@ def build(P):
             shapes.append("\n".join(["TYPE Rr"] + fs + ["ENDTYPE", "DECLARE r : Rr", "DECLARE t, u : ARRAY[1:3] OF Rr"] + setr + ["t[2] <- r", "t[3] <- t[2]", "u <- t", "r.v0[1] <- - 1", "t[2].v%d[2] <- - 2" % (nar - 1)] + dumpr("t[2]") + dumpr("t[3]") + dumpr("u[2]") + dumpr("u[3]") + dumpr("u[1]")
                                     + ["PROCEDURE Show(BYVAL x : Rr)"] + dumpr("x") + ["ENDPROCEDURE", "CALL Show(u[3])", "FUNCTION Mk() RETURNS Rr", "RETURN t[3]", "ENDFUNCTION", "r <- Mk()"] + dumpr("r")))
         shapes += [
-            "DECLARE z : ARRAY[1:2] OF INTEGER\nOUTPUT z[1], z[2]", "DECLARE a : ARRAY[- 1:1] OF CHAR\nOUTPUT ASC(a[0])",
+            "DECLARE z : ARRAY[1:2] OF INTEGER\nOUTPUT z[1], z[2]",
+            "DECLARE Grid : ARRAY[1:3, 1:3] OF INTEGER\nFOR i <- 1 TO 3\nFOR j <- 1 TO 3\nGrid[i, j] <- i * 10 + j\nNEXT j\nNEXT i\nFUNCTION Walk(n : INTEGER) RETURNS INTEGER\nIF n = 0 THEN\nRETURN 0\nENDIF\nRETURN Grid[n, Walk(n - 1) MOD 3 + 1]\nENDFUNCTION\nOUTPUT Walk(1), \" \", Walk(2), \" \", Walk(3)",
+            "DECLARE Marks : ARRAY[0:3, 0:3] OF INTEGER\nFUNCTION Mark(n : INTEGER) RETURNS INTEGER\nIF n > 0 THEN\nMarks[n, Mark(n - 1)] <- n\nENDIF\nRETURN n\nENDFUNCTION\nOUTPUT Mark(3)\nFOR i <- 0 TO 3\nOUTPUT Marks[i, 0], Marks[i, 1], Marks[i, 2], Marks[i, 3]\nNEXT i",
+            "DECLARE Cube : ARRAY[1:2, 1:2, 1:2] OF INTEGER\nk <- 0\nFOR a <- 1 TO 2\nFOR b <- 1 TO 2\nFOR c <- 1 TO 2\nk <- k + 1\nCube[a, b, c] <- k\nNEXT c\nNEXT b\nNEXT a\nFUNCTION Dig(n : INTEGER) RETURNS INTEGER\nIF n = 0 THEN\nRETURN 1\nENDIF\nRETURN Cube[Dig(n - 1) MOD 2 + 1, n MOD 2 + 1, Dig(n - 1) MOD 2 + 1] MOD 2 + 1\nENDFUNCTION\nOUTPUT Dig(1), Dig(2), Dig(3), Dig(4)",
+            "DECLARE V : ARRAY[1:4] OF INTEGER\nV[1] <- 2\nV[2] <- 3\nV[3] <- 4\nV[4] <- 1\nOUTPUT V[V[V[1]]], \" \", V[V[V[V[1]]]]\nV[V[1]] <- V[V[2]] + V[V[V[3]]]\nOUTPUT V[1], V[2], V[3], V[4]",
+            "DECLARE M : ARRAY[1:2, 1:2] OF INTEGER\nM[1, 1] <- 2\nM[1, 2] <- 1\nM[2, 1] <- 1\nM[2, 2] <- 2\nOUTPUT M[M[1, 1], M[2, 1]], M[M[1, 2], M[M[1, 1], M[2, 2]]]\nM[M[1, 2], M[1, 1]] <- 9\nOUTPUT M[1, 1], M[1, 2], M[2, 1], M[2, 2]", "DECLARE a : ARRAY[- 1:1] OF CHAR\nOUTPUT ASC(a[0])",
             "DECLARE a : ARRAY[1:3] OF BOOLEAN\nOUTPUT a[1], a[3]", "DECLARE a : ARRAY[1:3] OF REAL\nOUTPUT a[2]", "DECLARE a : ARRAY[1:3] OF STRING\nOUTPUT \"[\", a[2], \"]\"",
             "i <- 2\nDECLARE a : ARRAY[i:i*2] OF INTEGER\na[i + 1] <- 3\nOUTPUT a[3], a[4]\nOUTPUT a[5]",
             # dynamic indices evaluated repeatedly by the same source expression
@@ -270,10 +283,10 @@ def build(P):
                 kind = r.choice(["prim", "prim", "arr", "rec"] if level > 1 else ["prim", "prim", "arr"])
                 if kind == "arr" and not with_arrays: kind = "prim"
                 if kind == "prim":
-                    t = r.choice(["INTEGER", "STRING", "REAL", "BOOLEAN", "CHAR", "DATE"])
+                    t = r.choice(["INTEGER", "STRING", "REAL", "BOOLEAN", "CHAR", "DATE", "Hue", "Hue"])
                     body.append("DECLARE %s : %s" % (fn, t)); leaves.append(("." + fn, t))
                 elif kind == "arr":
-                    t = r.choice(["INTEGER", "STRING", "BOOLEAN"])
+                    t = r.choice(["INTEGER", "STRING", "BOOLEAN", "Hue"])
                     lo = r.randint(0, 1); hi = lo + r.randint(0, 2)
                     body.append("DECLARE %s : ARRAY[%d:%d] OF %s" % (fn, lo, hi, t))
                     for k in range(lo, hi + 1): leaves.append((".%s[%d]" % (fn, k), t))
@@ -289,10 +302,11 @@ def build(P):
             lines.extend(["TYPE " + name] + body + ["ENDTYPE"])
             return name, leaves
         top, leaves = mk(levels)
-        return lines, top, leaves
+        return ["TYPE Hue = (Crimson, Amber, Teal, Violet)"] + lines, top, leaves
 
     VAL = {"INTEGER": lambda k: str(100 + k), "STRING": lambda k: '"s%d"' % k, "REAL": lambda k: "%d.5" % k, "BOOLEAN": lambda k: "TRUE" if k % 2 else "FALSE",
-           "CHAR": lambda k: "'%s'" % "abcdefghij"[k % 10], "DATE": lambda k: "%d/1/2020" % (1 + k % 28)}
+           "CHAR": lambda k: "'%s'" % "abcdefghij"[k % 10], "DATE": lambda k: "%d/1/2020" % (1 + k % 28),
+           "Hue": lambda k: ["Amber", "Teal", "Violet", "Crimson"][k % 4]}
 
     def c07_cases(tier, seed):
         n = sizes(tier, 300, 6000)
@@ -402,7 +416,7 @@ def build(P):
                                       meta=dict(units=["%s/%s/%s" % (lt, form, eq)], const=v, kind="file")))
                     if eq == "=":
                         # same as a REPL history, the constant read back after the attempt
-                        ents = L[:-1] + ["K"]
+                        ents = L[:-1] + ["K", "OUTPUT \"K=\", K"]
                         progs.append(repl_case("C08r-%s-%s" % (lt, form), ents, files=dict(files), meta=dict(units=["repl/%s/%s" % (lt, form)], kind="repl", noshrink=True)))
         for ch in chunks(progs, 300):
             yield ("matrix", ch)
@@ -436,9 +450,17 @@ def build(P):
                 return ["the statement writing to constant K did not stop the program: %r" % r.out[-80:]]
             if not (r.exit == 1 and r.diags):
                 return ["the attempt to write to constant K was not reported (exit %d)" % r.exit]
+        if k == "repl":
+            # the constant is printed before the attempt and again at the end of the session: the two lines must be the same
+            ks = [l for l in r.out.replace(b"\x1e", b"\n").split(b"\n") if l.lstrip(b"> .").startswith(b"K=")]
+            ks = [l.lstrip(b"> .") for l in ks]
+            if len(ks) >= 2 and ks[0] != ks[-1]:
+                return ["constant K changed during the session: printed %r before and %r after the attempt" % (ks[0], ks[-1])]
+            if len(ks) < 2:
+                return ["the session did not reach the final print of constant K (stdout %r)" % r.out[-120:]]
         return []
 
-    C08 = dict(cases=c08_cases, builds_quick=["normal", "san"], oracle=c08_oracle, nontrivial=lambda c, r, m: True,
+    C08 = dict(cases=c08_cases, builds_quick=["normal", "san"], model_is_oracle=("out", "exit", "files", "termination"), oracle=c08_oracle, nontrivial=lambda c, r, m: True,
                rule="every literal type (INTEGER, negative INTEGER, REAL, BOOLEAN, CHAR, STRING) x every writing form (<-, FOR header, INPUT, READ, READFILE, GETRECORD, BYREF formal, "
                     "BYREF chain, BYREF formal of a function with INPUT, ^-dereference, re-DECLARE, re-CONSTANT) x both definition spellings, in file mode (must end in an error before "
                     "the sentinel) and as REPL histories with the constant echoed after the attempt (compared with the model); random programs threading constants through calls")
@@ -475,6 +497,26 @@ def build(P):
             "TYPE P = ^INTEGER\nDECLARE p : P\nCONSTANT K = 3\np <- ^K\nOUTPUT p^", "TYPE P = ^Nope", "TYPE P = ^INTEGER\nTYPE P = ^STRING",
         ]
         yield ("shapes", [Case(id="C09-shape-%d" % i, prog=(s + "\n").encode()) for i, s in enumerate(shapes)])
+        # pointer assignment: every (pointer target type, variable type) pair incl. user types of the same kind and pointers to pointers; p <- ^v is accepted
+        # exactly for identical types, and then p^ reads / writes v
+        PT = {"INTEGER": "5", "REAL": "2.5", "STRING": '"s"', "CHAR": "'c'", "BOOLEAN": "TRUE", "DATE": "1/2/2003", "Colour": "Green", "Season": "Winter", "RecA": None, "RecB": None,
+              "IntPtr": None, "RealPtr": None}
+        pre9 = ["TYPE Colour = (Red, Green, Blue)", "TYPE Season = (Spring, Summer, Autumn, Winter)", "TYPE RecA\nDECLARE f : INTEGER\nENDTYPE", "TYPE RecB\nDECLARE f : INTEGER\nENDTYPE",
+                "TYPE IntPtr = ^INTEGER", "TYPE RealPtr = ^REAL", "DECLARE ti : INTEGER", "DECLARE tr : REAL", "ti <- 3", "tr <- 1.5"]
+        pm = []
+        for tgt in PT:
+            for vt in PT:
+                L = list(pre9) + ["TYPE PX = ^%s" % tgt, "DECLARE p, q : PX", "DECLARE v : %s" % vt, "DECLARE w : %s" % tgt]
+                if PT[vt] is not None: L.append("v <- %s" % PT[vt])
+                elif vt in ("RecA", "RecB"): L.append("v.f <- 9")
+                elif vt == "IntPtr": L.append("v <- ^ti")
+                elif vt == "RealPtr": L.append("v <- ^tr")
+                L += ["OUTPUT \"before\"", "p <- ^v", "OUTPUT \"bound\"", "q <- p", "w <- q^", "OUTPUT \"copied\""]
+                if tgt in ("RecA", "RecB"): L += ["OUTPUT w.f", "q^.f <- 4", "OUTPUT v.f"]
+                elif tgt in ("IntPtr", "RealPtr"): L += ["OUTPUT w^", "OUTPUT q^^"]
+                else: L += ["OUTPUT w", "OUTPUT p^ = w"]
+                pm.append("\n".join(L))
+        yield ("pointer-type-matrix", [Case(id="C09-pt-%d" % i, prog=(sp + "\n").encode(), meta=dict(units=["pt/%d" % i])) for i, sp in enumerate(pm)])
         # an alias (pointer / BYREF parameter) to a place inside a container stays an alias of that place when the container, or a part of it
         # on the way to the place, is assigned as a whole afterwards: the alias then reads the new contents and writes into them
         TY = ["TYPE In\nDECLARE x : INTEGER\nENDTYPE", "TYPE Mid\nDECLARE inner : In\nDECLARE tag : INTEGER\nENDTYPE",
